@@ -192,12 +192,17 @@ Print Assumptions C17_map_keys.
    float: the digits lie in the rounding interval of f (every exit of the digit search), and round_ratio returns f
    for every fraction in that interval, ties included when the mantissa is even.  16- and 17-digit floats such as
    599/2^20 = 0.00057125091552734375, printed as 0.0005712509155273438, are inside.
-   What is left of the condition: [fl_print f <> None], i.e. f lies in the exponent window of Num.mk_fl and the
-   digit search of the model (dec_exponent's estimate, 17 digits) succeeds -- a computation, decided by [float_okb];
-   that it always succeeds inside the window is checked against strconv on every run, not proved. *)
+   What is left of the condition is the shape of the value: the printer model answers on every float of the model's
+   window and on no other (C17_float_condition; Proofs/FloatRtTotal.v: the decimal exponent is among the four
+   candidates around the estimate, and 17 digits always suffice). *)
 Theorem C17_float_literals : forall f s, fl_finite_norm f -> fl_print f = Some s -> parse_float_round s = FRVal f.
 Proof. exact FloatRtPrint.fl_print_parse. Qed.
 Print Assumptions C17_float_literals.
+
+(* and the printer model prints exactly the floats of the model: float_ok is a condition on the shape of the value *)
+Theorem C17_float_condition : forall f, float_ok f <-> FloatRtMain.fl_in_window f.
+Proof. exact FloatRtPrint.float_ok_iff_window. Qed.
+Print Assumptions C17_float_condition.
 
 Theorem C17_float_checker_sound : forall f, float_okb f = true -> float_ok f.
 Proof. exact float_okb_sound. Qed.
